@@ -168,7 +168,11 @@ def run_property(pid, tier, seed, args):
             a2, g2 = T.prepare(ass, goal)
             canary_tasks.append(solve.Task(nm, solve.to_smt2(a2, g2, negate=False), want_model=False))
     canary_res = solve.discharge_all(canary_tasks, timeout_s=10, second=False)
-    vacuous = [k for k, r in canary_res.items() if r['status'] == 'unsat']
+    # a clause whose assumptions contradict it is vacuous only if it was nevertheless "proved"; a clause that is
+    # plainly false fails its obligation and is reported as a violation below
+    failed_names = [obligations[i].name for i in range(len(obligations)) if results[i]['status'] != 'unsat']
+    vacuous = [k for k, r in canary_res.items() if r['status'] == 'unsat' and
+               not any(fn == k or fn.startswith(k + '.') for fn in failed_names)]
 
     # thorough: second back end on every obligation
     agree = {}
